@@ -16,9 +16,14 @@ functions that logs its own ground-truth call depth) built -pg / -finstrument-fu
 must be coherent in the sense of `c11_replay_depth_coherent`, and the Lean replay model must agree with
 replay's indentation.
 
-Six behaviours of the anchored code have a repaired and an as-coded variant in the model (Fix flags) or a
-dedicated probe; the check finds out which variant the tree follows, and every as-coded variant is a
-property violation (KNOWN-FINDING if listed open in known_findings.json with property C11)."""
+Seven behaviours of the anchored code have a repaired and an as-coded variant: five as `Fix` flags of the model
+(probed in H1 with the op lists of the Lean witness theorems and in H5), two visible in H5 only (replay's
+longjmp fix-up, which has its own Lean model `rstep`, and the -finstrument-functions tail-call case).  The
+check finds out per finding which variant the tree follows, runs the random cases against that variant of the
+model, and reports every as-coded variant as a property violation with the probe as failing input
+(KNOWN-FINDING if listed open in known_findings.json with property C11).  Failures of random cases are
+attributed to an as-coded finding only if the case contains that finding's trigger construct; anything else is
+a VIOLATION of its own."""
 import glob
 import json
 import os
@@ -719,7 +724,7 @@ def run_e2e_case(ctx, d, uftrace_src, name, ops, cpp, flavour, opt, alarm=False,
         return res
     args = ["alarm"] if alarm else []
     try:
-        p = subprocess.run([exe] + args, stdout=subprocess.PIPE, stderr=subprocess.PIPE, timeout=60)
+        p = subprocess.run([exe] + args, stdout=subprocess.PIPE, stderr=subprocess.PIPE, timeout=60, cwd=pd)
         nrc, nout = p.returncode, p.stdout.decode("utf-8", "replace")
     except subprocess.TimeoutExpired:
         res["problems"].append("native run timed out (generator bug)")
@@ -729,7 +734,7 @@ def run_e2e_case(ctx, d, uftrace_src, name, ops, cpp, flavour, opt, alarm=False,
     cmd = ["timeout", "-s", "KILL", "60", os.path.join(uftrace_src, "uftrace"), "record",
            "--libmcount-path=" + os.path.join(uftrace_src, "libmcount"), "--no-event", "--no-pager", "-d", dd] + \
         list(record_opts) + [exe] + args
-    p = subprocess.run(cmd, stdout=subprocess.PIPE, stderr=subprocess.PIPE)
+    p = subprocess.run(cmd, stdout=subprocess.PIPE, stderr=subprocess.PIPE, cwd=pd)   # gmon.out goes there
     tout, terr = p.stdout.decode("utf-8", "replace"), p.stderr.decode("utf-8", "replace")
     ma = re.search(r"^ALARMS (\d+)", terr, re.M)
     res["alarms"] = int(ma.group(1)) if ma else 0
@@ -1085,6 +1090,9 @@ def run(ctx):
         "in_exception is set",
         "vforkExec: in c11_instep_invariant and c11_vfork_returns; no depth theorem for it (H1/H5 only)",
         "the -finstrument-functions path (cygprof_dummy return slot) and signal arrival inside the hooks: H5 only",
+        "programs interrupted by SIGALRM contain no exceptions and no setjmp/longjmp: a traced handler arriving inside "
+        "the C++ unwinder aborts the tracee in a timing-dependent way (seen on the unchanged and on the repaired tree); "
+        "not part of the deterministic check",
     ]
     return C.finish(ctx)
 
